@@ -15,6 +15,7 @@ import (
 	"errors"
 	"fmt"
 	"io"
+	"sort"
 	"strings"
 	"sync"
 	"time"
@@ -1557,6 +1558,56 @@ func queuedTerminalThenInTransport(id string, op string) runner.Result {
 	return res
 }
 
+// queuedWriteCancelled: a send is inside the transport, a second write (MsgSend, RawWrite, RawFlush of
+// buffered data) of another goroutine waits for the stream's write lock, and the stream is cancelled
+// locally. Both writes were in progress when the cancel happened: both report the error given to
+// Cancel, whichever entry point they came through. A write issued after the cancel gets io.EOF.
+func queuedWriteCancelled(id string, op string) runner.Result {
+	gw := newSeqGateWriter(1)
+	wr := drpcwire.NewWriter(gw, 1)
+	st := drpcstream.NewWithOptions(context.Background(), streamID, wr, drpcstream.Options{})
+	d := []byte("first")
+	send := rig.Go("send", func() (interface{}, error) { return nil, st.MsgSend(&d, payload.Enc{}) })
+	where := fmt.Sprintf("[send inside the transport, %s of another goroutine waiting for the write lock, Cancel, the transport lets the send go]", op)
+	if s, _ := census.QuiesceOr(gw.reached[0], rig.Watchdog); s != "ready" {
+		return runner.Inconcl(id, where+": the send did not reach the transport")
+	}
+	queued := rig.Go(op, func() (interface{}, error) {
+		d2 := []byte("second")
+		if op == "MsgSend" {
+			return nil, st.MsgSend(&d2, payload.Enc{})
+		}
+		return nil, st.RawWrite(drpcwire.KindMessage, d2)
+	})
+	census.Quiesce(rig.Watchdog)
+	canc := rig.Go("Cancel", func() (interface{}, error) { st.Cancel(errCancel); return nil, nil })
+	census.Quiesce(rig.Watchdog)
+	close(gw.release[0])
+	census.Quiesce(rig.Watchdog)
+	var fails []string
+	for name, o := range map[string]*rig.Op{"the send that was inside the transport": send, "the queued " + op: queued} {
+		if !o.Returned() {
+			fails = append(fails, where+": "+name+" has not returned")
+		} else if !errors.Is(o.Err, errCancel) {
+			fails = append(fails, fmt.Sprintf("%s: %s returned %v, want the error given to Cancel", where, name, o.Err))
+		}
+	}
+	if !canc.Returned() {
+		fails = append(fails, where+": Cancel has not returned")
+	}
+	d3 := []byte("late")
+	if err := st.RawWrite(drpcwire.KindMessage, d3); !errors.Is(err, io.EOF) {
+		fails = append(fails, fmt.Sprintf("%s: a RawWrite issued after the cancel returned %v, want io.EOF", where, err))
+	}
+	sort.Strings(fails)
+	if len(fails) > 0 {
+		return runner.Violation(id, "state-machine:queued-write-does-not-report-the-cancel-error", strings.Join(fails, "\n"))
+	}
+	res := runner.Hold(id, where, true)
+	res.Events = 4
+	return res
+}
+
 // lockedBuffer is a bytes.Buffer safe for one writer and a reader of Len.
 type lockedBuffer struct {
 	mu sync.Mutex
@@ -1752,6 +1803,13 @@ func gen(tier string, seed uint64) []runner.Scenario {
 			how, end := how, end
 			id := fmt.Sprintf("shared-writer/%s/%s", how, end)
 			out = append(out, runner.Scenario{ID: id, Run: func() runner.Result { return sharedWriter(id, how, end) }})
+		}
+	}
+	for _, op := range []string{"MsgSend", "RawWrite"} {
+		for rep := 0; rep < 3; rep++ {
+			op := op
+			id := fmt.Sprintf("queued-write-cancelled/%s/%d", op, rep)
+			out = append(out, runner.Scenario{ID: id, Run: func() runner.Result { return queuedWriteCancelled(id, op) }})
 		}
 	}
 	for _, op := range []string{"Close", "CloseSend", "SendError"} {
